@@ -2205,8 +2205,15 @@ static void compile_stmt(CG *cg, ASTNode *node) {
     }
 
     case AST_BLOCK: {
+        uint16_t scope_first = cg->local_count;
         for (int i = 0; i < node->as.block.count; i++) {
             compile_stmt(cg, node->as.block.statements[i]);
+        }
+        /* Leaving the block ends the scope of the names it declared: their slots stay
+         * allocated, but a later lookup must find the outer binding again (static
+         * scoping and block shadowing, spec 8.1). */
+        for (uint16_t i = scope_first; i < cg->local_count; i++) {
+            cg->locals[i].name = (char *)"";
         }
         break;
     }
